@@ -1,0 +1,203 @@
+//! Verification hooks (cargo feature `verif_hooks`, off by default).
+//!
+//! With the feature enabled, `parallel.rs` takes its channel, scoped-thread and
+//! thread-pool primitives from this module instead of `std::sync::mpsc`,
+//! `crossbeam_utils::thread` and `scoped_threadpool`. The replacements have the same
+//! API and semantics, but are built on the primitives of the `shuttle` crate, so that
+//! a test harness can control (and replay) the thread schedule. The code of
+//! `parallel.rs` itself is unchanged.
+
+pub use shuttle::sync::mpsc;
+
+pub mod crossbeam_utils {
+    pub mod thread {
+        //! `crossbeam_utils::thread::scope` on top of `shuttle::thread::scope`
+
+        pub struct Scope<'scope, 'env: 'scope> {
+            inner: &'scope shuttle::thread::Scope<'scope, 'env>,
+        }
+
+        pub struct ScopedJoinHandle<'scope, T> {
+            inner: shuttle::thread::ScopedJoinHandle<'scope, T>,
+        }
+
+        impl<'scope, T> ScopedJoinHandle<'scope, T> {
+            pub fn join(self) -> std::thread::Result<T> {
+                self.inner.join()
+            }
+        }
+
+        impl<'scope, 'env> Scope<'scope, 'env> {
+            pub fn spawn<F, T>(&self, f: F) -> ScopedJoinHandle<'scope, T>
+            where
+                F: FnOnce(&Scope<'scope, 'env>) -> T + Send + 'scope,
+                T: Send + 'scope,
+            {
+                let inner = self.inner;
+                ScopedJoinHandle {
+                    inner: inner.spawn(move || f(&Scope { inner })),
+                }
+            }
+        }
+
+        pub fn scope<'env, F, R>(f: F) -> std::thread::Result<R>
+        where
+            F: for<'scope> FnOnce(&Scope<'scope, 'env>) -> R,
+        {
+            Ok(shuttle::thread::scope(|s| f(&Scope { inner: s })))
+        }
+    }
+}
+
+pub mod scoped_threadpool {
+    //! Port of `scoped_threadpool` 0.1.9 (same structure and protocol: one job channel
+    //! behind a mutex, two rendezvous channels per worker for `join_all`, the scope
+    //! joins when dropped), with `std::{thread, sync}` replaced by shuttle's.
+
+    use shuttle::sync::mpsc::{channel, sync_channel, Receiver, RecvError, Sender, SyncSender};
+    use shuttle::sync::{Arc, Mutex};
+    use shuttle::thread::{self, JoinHandle};
+    use std::marker::PhantomData;
+    use std::mem;
+
+    enum Message {
+        NewJob(Thunk<'static>),
+        Join,
+    }
+
+    type Thunk<'a> = Box<dyn FnOnce() + Send + 'a>;
+
+    impl Drop for Pool {
+        fn drop(&mut self) {
+            self.job_sender = None;
+        }
+    }
+
+    pub struct Pool {
+        threads: Vec<ThreadData>,
+        job_sender: Option<Sender<Message>>,
+    }
+
+    struct ThreadData {
+        _thread_join_handle: JoinHandle<()>,
+        pool_sync_rx: Receiver<()>,
+        thread_sync_tx: SyncSender<()>,
+    }
+
+    impl Pool {
+        pub fn new(n: u32) -> Pool {
+            assert!(n >= 1);
+
+            let (job_sender, job_receiver) = channel();
+            let job_receiver = Arc::new(Mutex::new(job_receiver));
+
+            let mut threads = Vec::with_capacity(n as usize);
+
+            for _ in 0..n {
+                let job_receiver = job_receiver.clone();
+
+                let (pool_sync_tx, pool_sync_rx) = sync_channel::<()>(0);
+                let (thread_sync_tx, thread_sync_rx) = sync_channel::<()>(0);
+
+                let thread = thread::spawn(move || loop {
+                    let message = {
+                        let lock = job_receiver.lock().unwrap();
+                        lock.recv()
+                    };
+
+                    match message {
+                        Ok(Message::NewJob(job)) => {
+                            job();
+                        }
+                        Ok(Message::Join) => {
+                            if pool_sync_tx.send(()).is_err() {
+                                break;
+                            }
+                            if thread_sync_rx.recv().is_err() {
+                                break;
+                            }
+                        }
+                        Err(..) => break,
+                    }
+                });
+
+                threads.push(ThreadData {
+                    _thread_join_handle: thread,
+                    pool_sync_rx,
+                    thread_sync_tx,
+                });
+            }
+
+            Pool {
+                threads,
+                job_sender: Some(job_sender),
+            }
+        }
+
+        pub fn scoped<'pool, 'scope, F, R>(&'pool mut self, f: F) -> R
+        where
+            F: FnOnce(&Scope<'pool, 'scope>) -> R,
+        {
+            let scope = Scope {
+                pool: self,
+                _marker: PhantomData,
+            };
+            f(&scope)
+        }
+
+        pub fn thread_count(&self) -> u32 {
+            self.threads.len() as u32
+        }
+    }
+
+    pub struct Scope<'pool, 'scope> {
+        pool: &'pool mut Pool,
+        _marker: PhantomData<::std::cell::Cell<&'scope mut ()>>,
+    }
+
+    impl<'pool, 'scope> Scope<'pool, 'scope> {
+        pub fn execute<F>(&self, f: F)
+        where
+            F: FnOnce() + Send + 'scope,
+        {
+            let b = unsafe { mem::transmute::<Thunk<'scope>, Thunk<'static>>(Box::new(f)) };
+            self.pool
+                .job_sender
+                .as_ref()
+                .unwrap()
+                .send(Message::NewJob(b))
+                .unwrap();
+        }
+
+        pub fn join_all(&self) {
+            for _ in 0..self.pool.threads.len() {
+                self.pool
+                    .job_sender
+                    .as_ref()
+                    .unwrap()
+                    .send(Message::Join)
+                    .unwrap();
+            }
+
+            let mut worker_panic = false;
+            for thread_data in &self.pool.threads {
+                if let Err(RecvError) = thread_data.pool_sync_rx.recv() {
+                    worker_panic = true;
+                }
+            }
+            if worker_panic {
+                panic!("Thread pool worker panicked");
+            }
+
+            for thread_data in &self.pool.threads {
+                thread_data.thread_sync_tx.send(()).unwrap();
+            }
+        }
+    }
+
+    impl<'pool, 'scope> Drop for Scope<'pool, 'scope> {
+        fn drop(&mut self) {
+            self.join_all();
+        }
+    }
+}
